@@ -279,6 +279,46 @@ CLAIMS["C05"] = (
     "database would change) -- that needs an SQL execution semantics no contract here expresses.",
     "DESIGN.md section 4, C05")
 
+CLAIMS["C18"] = (
+    "Per operation, over the ownership ledger of pooled connections (ghost: connOut[c] = handed out, isMaster[c], sessOut = connections "
+    "charged to the session): inside a transaction getTransactionConn serves a slice from the connection already pinned for it, otherwise "
+    "from a connection freshly taken from the slice's MASTER pool that no one else holds (precondition of the pool contract), prepared and "
+    "pinned -- so every statement of the transaction on that slice gets the same master connection (getBackendNoKsConn / getBackendConn "
+    "dispatch: in a transaction only through getTransactionConn); COMMIT and ROLLBACK call Commit / Rollback on every transaction "
+    "connection, return each exactly once, empty the transaction table and clear the in-transaction bit.",
+    "Assumed: Slice.GetMasterConn / GetConn hand out a connection not handed out already (pool guarantee) and GetMasterConn one of the "
+    "master; PooledConnect methods other than Recycle do not touch session state; operations of one session are sequential (txLock). NOT "
+    "under contract: handleBegin / handleSetAutoCommit (status bits), the statement dispatch in handleQuery*, ExecuteSQL(s) (goroutines), "
+    "read/write splitting inside GetConn: 'never on a replica' is decided for connections obtained through getTransactionConn only.",
+    "DESIGN.md section 4, C18")
+
+CLAIMS["C19"] = (
+    "Ownership ledger of a session's backend connections (ghost connOut / sessOut; Recycle REQUIRES the connection to be handed out, so a "
+    "double return fails a precondition; ledger invariant: every connection in txConns / ksConns is handed out, sits under one key only, and "
+    "sessOut == len(txConns) + len(ksConns), i.e. nothing else is charged to the session): getTransactionConn and getBackendKsConn either "
+    "pin the connection they took or close and return it exactly once and hand nothing to the caller (fixed in /repo: it was handed back "
+    "and returned twice); commit, rollback (fixed: closed connections were skipped), handleKsQuit, clearKsConns and the failed-ping path "
+    "(fixed: connections stayed pinned after being returned) return every connection they drop exactly once (loop invariants over the map "
+    "ranges with visited sets and iteration counts); recycleBackendConns returns each per-statement connection once outside transactions. "
+    "Recorded finding: recycleTx drops the transaction table without returning the other slices' connections.",
+    "Assumed: pool contracts (see C18); distinct slices hand out distinct connections is PROVED from the ledger, not assumed. NOT under "
+    "contract: recycleBackendConn / recycleContinueConn (streaming state), ExecuteSQL / ExecuteSQLs / executeUnshardSQLInSlice (timeouts, "
+    "goroutines), Session.Close, the pool's own Put accounting (pooledConnectImpl.Recycle); the history quantifier is induction over "
+    "operations preserving the ledger (meta-argument).",
+    "DESIGN.md section 4, C19")
+
+CLAIMS["C23"] = (
+    "Keep-session mode, over the same ledger as C19: getBackendKsConn returns exactly the connection pinned for the slice and touches no "
+    "pool when one is pinned; otherwise it takes one connection, prepares it and pins it (or returns it once on failure); getBackendConn "
+    "dispatches keep-session clients there; clearKsConns closes and returns every pinned connection exactly once and empties the table "
+    "exactly when keep-session is on, the namespace's change index has advanced and the client is NOT in a transaction, and otherwise "
+    "changes nothing; shouldClearKsAndCloseSession is true exactly for keep-session clients inside a transaction (explicit or "
+    "autocommit=0) after a configuration change, and execCommand then never reaches ExecuteCommand (call-site obligation); handleKsQuit "
+    "releases everything at disconnect; the failed-ping path unpins what it returns (fixed).",
+    "NOT decided: when (in which goroutine / command) a session observes the new change index, that the client of a refused command is "
+    "actually disconnected (Session.Run loop), and that backend session state survives on the pinned connection (backend semantics).",
+    "DESIGN.md section 4, C23")
+
 NA = {
  "C02": "not applicable to contract-based verification here: the oracle is the result of executing SQL on data (what one MySQL holding all shards would return); no contract within reach expresses an SQL execution semantics, and the rewriter is ~3k lines of visitors over TiDB AST types (DESIGN.md section 5)",
  "C06": "not applicable: the property compares a token pre-check with the decision of the yacc-generated parser; the specification is that parser (tables + hand-written lexer), which is outside the verifier's subset (DESIGN.md section 5)",
